@@ -117,7 +117,7 @@ static void* life_entry(void* a) {
             vt::Ev("SegEnd").i("t", w->id).i("v", g_vc.index_of(get_vcpu()));
         } else if (c < 6) thread_yield();
         else if (c < 8) thread_usleep(rr.below(300));
-        else {
+        else if (!w->pooled_thread) {          // (pooled threads stay on their pool's vCPU, see exec_life)
             int to = (int)rr.below(g_vc.vc.size());
             thread_migrate(CURRENT, g_vc.vc[to]);
         }
@@ -149,7 +149,11 @@ static bool exec_life(int ex, vt::Rng& r) {
             else w->th = thread_create(&life_entry, w, 128 * 1024, 0, (w->joinable ? THREAD_JOINABLE : 0) | (w->steal ? THREAD_ENABLE_WORK_STEALING : 0));
             vtp::reg().set(w->th, w->id);
             vt::Ev("CreateResp").i("t", w->id).i("stack", w->pooled_thread ? 0 : g_stacks.find(w->th));
-            if (r.coin(50) && thread_stat(w->th) == states::READY) {
+            // (a pooled thread stays on its pool's vCPU: a pool may only be deleted when its detached threads are back in it,
+            //  and after the entry function has returned that is certain only where the pool's epilogue cannot run in parallel
+            //  with the deleting thread -- migrated pooled threads made `delete pool` race with ctrl.pool->put(): heap
+            //  corruption about once in 30 runs)
+            if (r.coin(50) && !w->pooled_thread && thread_stat(w->th) == states::READY) {
                 int to = (int)r.below(g_vc.vc.size());
                 if (g_vc.vc[to] != get_vcpu()) thread_migrate(w->th, g_vc.vc[to]);
             }
